@@ -136,6 +136,9 @@ type gen struct {
 	brs   map[int]*leaves.BurndownAnalysis
 	lens  map[int]map[int]int
 	stats map[string]int
+	// the largest tick handed to Consume so far, the number of the case (for the oracle's report)
+	maxTick, caseNo int
+	reportedTick    bool
 }
 
 type change struct {
@@ -230,6 +233,9 @@ func (g *gen) consume(b, tick, author int, merge bool, chs []change) bool {
 		m = 1
 	}
 	fmt.Fprintf(g.wo, "begin %d %d %d %d\n", b, tick, author, m)
+	if tick > g.maxTick {
+		g.maxTick = tick
+	}
 	for _, c := range chs {
 		fmt.Fprintln(g.wo, c.op)
 		changes = append(changes, c.ch)
@@ -342,6 +348,20 @@ func (g *gen) obs() {
 		ids = append(ids, b)
 	}
 	sort.Ints(ids)
+	// Go-side statement shared by C01/C07: outside a merge in progress every tracked line carries the tick of a commit
+	// that was analysed - never a later one, never the merge mark
+	for _, b := range ids {
+		files, _, _, _ := leaves.VerifBurndownState(g.brs[b])
+		for fname, nodes := range files {
+			for _, nd := range nodes[:len(nodes)-1] {
+				if t := nd[1] & burndown.TreeMergeMark; t > g.maxTick && !g.reportedTick {
+					g.reportedTick = true
+					hv.Fail("line-tick", fmt.Sprintf(`{"case":%d,"branch":%d,"file":%q,"interval":%v}`, g.caseNo, b, fname, nd),
+						fmt.Sprintf("branch %d, %s: the lines from %d on carry tick %d, the latest analysed commit has tick %d", b, fname, nd[0], t, g.maxTick))
+				}
+			}
+		}
+	}
 	var parts []string
 	for _, b := range ids {
 		parts = append(parts, fmt.Sprintf("B%d[%s]", b, filesOf(g.brs[b])))
@@ -373,7 +393,7 @@ func main() {
 		}
 		prevBA = ba
 		ba.Initialize(nil)
-		g := &gen{rng: rng, wo: wo, wi: wi, pn: pn, brs: map[int]*leaves.BurndownAnalysis{1: ba}, lens: map[int]map[int]int{1: {}}, stats: stats}
+		g := &gen{rng: rng, wo: wo, wi: wi, pn: pn, brs: map[int]*leaves.BurndownAnalysis{1: ba}, lens: map[int]map[int]int{1: {}}, stats: stats, caseNo: it}
 		fmt.Fprintf(wo, "init %d\n", pn)
 		fmt.Fprintln(wi, "ok")
 		tick := 0
